@@ -484,8 +484,9 @@ def cli_layer(ctx, rep, workloads, n):
                     for fn in paths:
                         argv += ["-m", mname, fn]
             o = w["options"]
-            argv += ["-f", o["framework"], "-s", o["structure"], "--merge", *o["merge"],
-                     "--max-strings-literals", str(o["max_literals"])]
+            argv += ["-f", o["framework"], "-s", o["structure"], "--max-strings-literals", str(o["max_literals"])]
+            if o.get("merge") is not None:
+                argv += ["--merge", *o["merge"]]
             if not o["convert_unicode"]:
                 argv.append("--no-unidecode")
             if o["post_init_converters"]:
@@ -511,6 +512,13 @@ def cli_layer(ctx, rep, workloads, n):
             j, hs, argv = task
             env = dict(os.environ, PYTHONHASHSEED=str(0 if hs == "mtime" else hs), PYTHONPATH=loader.repo_dir(),
                        PYTHONIOENCODING="utf-8")
+            if hs not in (0, "mtime"):
+                # other aspects of the environment that are not input: terminal size, home directory, time zone,
+                # interpreter optimisation level (asserts stripped)
+                k = hs % 4
+                env.update({"COLUMNS": str([40, 80, 200, 10][k]), "LINES": "7", "HOME": scratch, "TZ": ["UTC", "Asia/Tokyo", "America/New_York", "UTC"][k]})
+                if k == 1:
+                    env["PYTHONOPTIMIZE"] = "1"
             env.pop("TRAVIS", None)
             env.pop("FORCE_COVERAGE", None)
             p = subprocess.run([PYTHON, "-m", "json_to_models", *argv], capture_output=True, env=env,
